@@ -593,6 +593,13 @@ def main(run):
         run.log("  disagreement:", json.dumps(built[i]["desc"])[:600])
     corr = [{"name": "formatting.XmlDiffFormatter.format vs XV.OldFormat.old_format (text, entry count or exception class)",
              "cases": len(built), "bad": bad, "log": log, "describe": lambda i: built[i]["desc"]}]
+    # labelled stream of the open finding two-prefixes-one-uri-on-left-root (oracle only: outside the model's domain)
+    for Ls, Rs in differ_props.KNOWN_STREAM:
+        d = {"left": Ls, "right": Rs, "wrap": False, "opts": {}}
+        if differ_props.finding_key(d, "C18", "") == "two-prefixes-one-uri-on-left-root":
+            why = oracle(Ls, Rs, {}, False)
+            if why and not why.startswith("skip:"):
+                viols.append({"what": why, "replay": dict(d, finding_key="two-prefixes-one-uri-on-left-root")})
     bad2, log2 = ([], "")
     if pinfo.get("build_ok"):
         bad2, log2 = lib.run_cases("C18p", PRE2, prem, chunk=60)
